@@ -660,8 +660,11 @@ func (sema *ExprSemanticsChecker) checkArrayDeref(n *ArrayDerefNode) ExprType {
 	case AnyType:
 		return &ArrayType{AnyType{}, true}
 	case *ArrayType:
-		ty.Deref = true
-		return ty
+		if ty.Deref {
+			return ty
+		}
+		// Do not modify the receiver's type: it is shared with the context object it came from
+		return &ArrayType{Elem: ty.Elem, Deref: true}
 	case *ObjectType:
 		// Object filtering is available for objects, not only arrays (#66)
 
